@@ -27,7 +27,10 @@ def generate(seed, tier):
     ops, info = econgen.gen_program(seed, family=fam, tight=S['swarm'].random() < 0.7)
     case = {'kind': 'ECON', 'family': info['family'], 'ops': ops, 'misuse': None}
     if S['faults'].random() < 0.2:
-        uses_cross = any(o['op'] == 'RegisterCashFlow' for o in ops) or fam in ('multi_currency_supply', 'gold')
+        # the program really contains a cross-currency element (all generated AddSupplier-with-rule ops and first
+        # registered flows are cross zone; gold purchases go through the FX book)
+        uses_cross = any(o['op'] == 'RegisterCashFlow' for o in ops) or fam == 'gold' or \
+            any(o['op'] == 'AddSupplier' and o.get('eqn') for o in ops)
         if uses_cross:
             ext = [o['id'] for o in ops if o['op'] == 'ExternalSector']
             # remove the external sector and everything that needs its handle (exchange-rate settings)
@@ -54,6 +57,18 @@ def execute(case):
                                            'cross-currency-without-external-accepted', family=case['family']))
             elif any(len(v) > 1 for k, v in ts.items()):
                 viol.append(core.violation(ID, 'misuse-left-numbers', 'misuse-left-numbers', outcome=out))
+            else:
+                # "refused": the registered cross-currency flow must not be half applied to the sender's books
+                from .. import econref as R
+                d = R.declare(case['ops'])
+                for (m, src, tgt, var, _a, _b) in d.registered:
+                    if m != mh or R.zone_of(d, src) == R.zone_of(d, tgt) or src not in sess.H:
+                        continue
+                    frhs = sess.H[src].EquationBlock['F'].RHS()
+                    if var in econ.names_in_rhs(frhs) or any(n.endswith('__' + var) for n in econ.names_in_rhs(frhs)):
+                        viol.append(core.violation(ID, 'refused-flow-half-applied', 'refused-flow-half-applied',
+                                                   sender=R.full_code(d, src), F=frhs[0:160], flow=var))
+                        break
         return {'violations': viol, 'stats': stats, 'sig': 'misuse:' + econprops.program_sig(case, sess),
                 'digest': core.digest([(i, n, o) for i, n, o in sess.log]), 'nontrivial': True}
     def remap(x):
